@@ -198,20 +198,22 @@ def _run_check(mod, prop, tier, seed, replay, only, scratch, t_start):
     nworkers = max(1, min(int(os.environ.get("VERIF_WORKERS", "16")), len(indices)))
     sys.stdout.flush()
     sys.stderr.flush()
-    pids = {}
-    for w in range(nworkers):
+
+    def spawn(w, todo):
         pid = os.fork()
         if pid == 0:
             code = 0
             try:
                 os.environ["VERIF_WORKER"] = str(w)
                 wscratch = scratch / f"w{w}"
-                wscratch.mkdir()
+                wscratch.mkdir(exist_ok=True)
                 os.environ["VERIF_SCRATCH"] = str(wscratch)
                 if hasattr(mod, "worker_init"):
                     mod.worker_init(w)
-                with open(scratch / f"log{w}.jsonl", "w") as f:
-                    for idx in indices[w::nworkers]:
+                with open(scratch / f"log{w}.jsonl", "a") as f:
+                    for idx in todo:
+                        f.write(json.dumps({"start": idx}) + "\n")
+                        f.flush()
                         rec = _run_one(mod, prop, seed, idx, tier)
                         f.write(json.dumps(rec) + "\n")
                         f.flush()
@@ -222,9 +224,14 @@ def _run_check(mod, prop, tier, seed, replay, only, scratch, t_start):
                 sys.stdout.flush()
                 sys.stderr.flush()
                 os._exit(code)
-        pids[pid] = w
+        return pid
+
+    assigned = {w: indices[w::nworkers] for w in range(nworkers)}
+    pids = {spawn(w, assigned[w]): w for w in range(nworkers)}
     deadline = time.time() + getattr(mod, "BATCH_TIMEOUT", {"quick": 1500, "thorough": 6 * 3600}).get(tier, 1500)
     dead_workers = []
+    crashed_cases = []
+    restarts = 0
     while pids:
         try:
             pid, status = os.waitpid(-1, os.WNOHANG)
@@ -242,8 +249,36 @@ def _run_check(mod, prop, tier, seed, replay, only, scratch, t_start):
             time.sleep(0.05)
             continue
         w = pids.pop(pid, None)
-        if status != 0:
-            dead_workers.append(f"worker{w}:status{status}")
+        if w is None or status == 0 or deadline == float("inf"):
+            continue
+        # the worker died (native crash of a library, kill): find the case it was running, record it as a crashed
+        # case and continue with the rest in a fresh worker
+        started, finished = [], set()
+        try:
+            for line in (scratch / f"log{w}.jsonl").read_text().splitlines():
+                try:
+                    r = json.loads(line)
+                except json.JSONDecodeError:
+                    continue
+                if "start" in r:
+                    started.append(r["start"])
+                elif "idx" in r:
+                    finished.add(r["idx"])
+        except FileNotFoundError:
+            pass
+        culprit = [i for i in started if i not in finished]
+        crashed_cases.extend((i, status) for i in culprit)
+        with open(scratch / f"log{w}.jsonl", "a") as f:
+            for i in culprit:
+                f.write(json.dumps({"idx": i, "fp": "", "nontrivial": False, "counters": {}, "violations": [],
+                                    "refusal": None, "skipped": f"worker-crash:status{status}", "sample": None,
+                                    "states": [], "t": 0}) + "\n")
+        todo = [i for i in assigned[w] if i not in finished and i not in culprit]
+        restarts += 1
+        if todo and restarts <= 40:
+            pids[spawn(w, todo)] = w
+        elif todo:
+            dead_workers.append(f"worker{w}:status{status}:too-many-restarts")
 
     # merge
     recs = []
@@ -252,11 +287,22 @@ def _run_check(mod, prop, tier, seed, replay, only, scratch, t_start):
         if p.exists():
             for line in p.read_text().splitlines():
                 try:
-                    recs.append(json.loads(line))
+                    r = json.loads(line)
                 except json.JSONDecodeError:
-                    pass
+                    continue
+                if "idx" in r:
+                    recs.append(r)
     recs.sort(key=lambda r: r["idx"])
-    return conclude(mod, prop, tier, seed, recs, len(indices), dead_workers, t_start)
+    missing = sorted(set(indices) - {r["idx"] for r in recs})
+    extra = {"missing_case_indices": missing[:50]} if missing else {}
+    if crashed_cases:
+        extra["crashed_cases"] = [{"idx": i, "status": st} for i, st in crashed_cases[:50]]
+        print(f"[{prop}] {len(crashed_cases)} case(s) crashed their worker process (native fault): {crashed_cases[:10]}")
+    if missing:
+        print(f"[{prop}] {len(missing)} planned cases produced no record (worker died?): first {missing[:10]}; faults={dead_workers}")
+        if not dead_workers:
+            dead_workers.append(f"missing-cases:{len(missing)}")
+    return conclude(mod, prop, tier, seed, recs, len(indices), dead_workers, t_start, extra)
 
 
 def conclude(mod, prop, tier, seed, recs, planned, dead_workers, t_start, extra_cov=None):
@@ -386,6 +432,8 @@ def conclude(mod, prop, tier, seed, recs, planned, dead_workers, t_start, extra_
         reason = f"harness-errors:{harness_errors}"
     elif skipped.get("timeout", 0) > max(5, 0.1 * planned):
         reason = f"timeouts:{skipped['timeout']}"
+    elif sum(v for k, v in skipped.items() if k.startswith("worker-crash")) > max(3, 0.01 * planned):
+        reason = "worker-crashes:" + str(sum(v for k, v in skipped.items() if k.startswith("worker-crash")))
     if reason:
         print(f"INCONCLUSIVE property={prop} reason={reason}")
         ev["coverage"]["verdict"] = "inconclusive"
